@@ -190,7 +190,7 @@ pub proof fn lemma_run_msgs_one<E, Q, R: CosmosRouter<E, Q>>(router: R, s0: St, 
 //@ end
 //@ fn src/app.rs :: App :: execute_multi
 //@   ret r
-//@   ensures [C01.multi.sem,C02] multi_result(r, final(self).storage.view(), old(self).storage.view(), run_msgs(old(self).router, old(self).storage.view(), old(self).block, sender, msgs@))
+//@   ensures [C01.multi.sem,C02,C19] multi_result(r, final(self).storage.view(), old(self).storage.view(), run_msgs(old(self).router, old(self).storage.view(), old(self).block, sender, msgs@))
 //@   ensures [C01.multi.frame] final(self).block == old(self).block && final(self).router == old(self).router
 //@   replace_re? "\\|write_cache, (?P<U>_vx\\d+)\\| \\{" => "|write_cache: &mut dyn Storage, \\g<U>: &dyn Storage| -> (cr: AnyResult<Vec<AppResponse>>) ensures multi_closure(cr, final(write_cache).view(), run_msgs(*router, old(write_cache).view(), *block, sender, msgs@)) {"
 //@   replace_re? "(?P<E>msgs\\.into_iter\\(\\)(?:\\s*\\.\\w+\\(\\))*?)\\s*\\.map\\(\\|(?P<X>\\w+)\\|\\s*(?P<F>router\\.execute\\([^;]*?\\))\\)\\s*\\.collect\\(\\)" => "let ghost vx_s0 = write_cache.view(); let mut vx_out: Vec<AppResponse> = Vec::new(); proof { lemma_run_msgs_init(*router, vx_s0, *block, sender, msgs@); }\n for \\g<X> in vx_it: \\g<E>\n invariant /*VXCLAUSE C01.multi.loop_inv*/ (vx_it.seq() == msgs@ && vx_s0 == old(write_cache).view() && multi_inv(*router, vx_s0, *block, sender, msgs@, vx_it.index@ as int, vx_out@, write_cache.view())),\n { proof { lemma_run_msgs_step(*router, vx_s0, *block, sender, msgs@, vx_it.index@ as int, vx_out@, write_cache.view()); } let vx_r = \\g<F>; vx_out.push(vx_r?); }\n proof { lemma_run_msgs_done(*router, vx_s0, *block, sender, msgs@, vx_out@, write_cache.view()); } Ok(vx_out)"
@@ -204,7 +204,7 @@ pub proof fn lemma_run_msgs_one<E, Q, R: CosmosRouter<E, Q>>(router: R, s0: St, 
 //@ end
 //@ fn src/app.rs :: Executor for App :: execute
 //@   ret r
-//@   ensures [C01.exec.single,C02] (r, final(self).storage.view()) == commit_if_ok(old(self).router.exec_sem(old(self).storage.view(), old(self).block, sender, msg), old(self).storage.view())
+//@   ensures [C01.exec.single,C02,C19] (r, final(self).storage.view()) == commit_if_ok(old(self).router.exec_sem(old(self).storage.view(), old(self).block, sender, msg), old(self).storage.view())
 //@   ensures [C01.exec.frame] final(self).block == old(self).block && final(self).router == old(self).router
 //@   begin proof { assert forall|sq: Seq<CosmosMsg<CustomT::ExecT>>| sq.len() == 1 implies #[trigger] run_msgs(self.router, self.storage.view(), self.block, sender, sq) == ((match self.router.exec_sem(self.storage.view(), self.block, sender, sq[0]).0 { Ok(a) => Ok(seq![a]), Err(e) => Err(e) }), self.router.exec_sem(self.storage.view(), self.block, sender, sq[0]).1) by { lemma_run_msgs_one(self.router, self.storage.view(), self.block, sender, sq); } }
 //@ end
